@@ -388,6 +388,22 @@ var scenarios = []*scenario{
 			return nil
 		},
 		canon: func(o *obs) string { return "completed" }},
+	{name: "d7-two-routines-exit-from-the-same-function-body", group: "d", yield: true, quick: 2, thorough: 3,
+		// the compiled body of a function is shared by every routine that calls it: an exit that is on its way to its
+		// block in one routine (it is running the cleanup form) while another routine exits from the same form must
+		// still deliver its own value
+		src: `(progn
+  (defun @F (x)
+    (block done
+      (unwind-protect (return-from done x)
+        (tr 'cleanup))))
+  (@F 'warm)
+  (let ((d (make-channel 2)) (r1 nil) (r2 nil))
+    (run (progn (setq r2 (@F 'second)) (channel-push d t)))
+    (setq r1 (@F 'first))
+    (channel-pop d)
+    (list r1 r2)))`,
+		check: all(expectVal("(first second)")), canon: rawVal},
 	// ---- (e) negative control: an unsynchronised read-modify-write MUST be caught
 	{name: "e1-unsynchronised-counter", group: "e", yield: true, negative: true, quick: 2, thorough: 2,
 		src: `(let ((n 0) (d (make-channel 2)))
@@ -426,7 +442,7 @@ func (sc *scenario) build() *sched.Scenario {
 				scope.InterruptCheck = vsched.Yield
 			}
 			gfCounter++
-			return &env{scope: scope, src: strings.ReplaceAll(sc.src, "@G", fmt.Sprintf("c17-g%d", gfCounter))}
+			return &env{scope: scope, src: strings.ReplaceAll(strings.ReplaceAll(sc.src, "@G", fmt.Sprintf("c17-g%d", gfCounter)), "@F", fmt.Sprintf("c17-f%d", gfCounter))}
 		},
 		Main: func(e any) {
 			en := e.(*env)
